@@ -26,6 +26,19 @@ CHECKS = {
         "oracle (with inverse-map round trip)",
         "ref": "DESIGN.md 4 C14",
     },
+    "C18": {
+        "level": "Hypothesis-generated operator tables and well-formed Pair streams (<= 12 tokens) checked "
+        "with a two-directional validity predicate (whole stream consumed, in-order yield equals the stream, "
+        "deep-precedence property), plus exhaustive enumeration of every well-formed stream of <= 7 (quick) / "
+        "<= 9 (thorough) tokens under all 24 precedence orders of a left-assoc infix, a right-assoc infix, a "
+        "prefix and a postfix operator.",
+        "note": "Trusted: the deep-precedence predicate; it is self-tested in every run (exactly one of all "
+        "brute-force enumerated trees of each stream of <= 7 tokens satisfies it). Ties between fixities are "
+        "outside the domain.",
+        "technique": "Hypothesis generation + exhaustive small-scope enumeration against a validity predicate "
+        "(self-tested by brute-force tree enumeration)",
+        "ref": "DESIGN.md 4 C18",
+    },
 }
 
 # properties whose check is not built yet (kept current while the framework grows)
